@@ -333,6 +333,7 @@ class World:
         self.miss_log = {}
         self.current_req = []
         self.current_kind = None
+        self.chain_busy = False
         self.in_dispatch = False  # line-level pre-emption only inside operations, never while the harness observes
         self.actor_key = {}  # actor name -> key whose fetch that actor started last (fallback fault addressing)
         self.chunk = k.get("chunk", 4096)
@@ -392,7 +393,14 @@ class World:
         if not (self.knobs.get("second_cache") and self.knobs.get("api") == "module" and self.fc.exists(OTHER_NAME)):
             # no second cache in this configuration: the object comes straight from the store
             return self.sim_download("sim://bucket/" + res, filepath, NotFound)
-        paths = self.fc.filepaths(["sim://bucket/" + res], OTHER_NAME)
+        # FileCache objects are not meant to be called from several threads at once (out of scope, DESIGN 13):
+        # the user's chained resource serialises its requests on the second cache with a lock
+        self.sched.wait(lambda: not self.chain_busy, "chain.lock")
+        self.chain_busy = True
+        try:
+            paths = self.fc.filepaths(["sim://bucket/" + res], OTHER_NAME)
+        finally:
+            self.chain_busy = False
         if not paths:
             raise NotFound("chained object %s not found" % uri)
         with open(paths[0], "rb") as f:
@@ -1029,7 +1037,12 @@ class World:
             # a request to the second named cache; must not touch the first cache's directory
             if self.knobs.get("second_cache") and self.knobs.get("api") == "module" and self.fc.exists(OTHER_NAME):
                 self.current_req = list(op["keys"])
-                obs.result = self.fc.filepaths([self.uris[i] for i in op["keys"]], OTHER_NAME)
+                self.sched.wait(lambda: not self.chain_busy, "chain.lock")
+                self.chain_busy = True
+                try:
+                    obs.result = self.fc.filepaths([self.uris[i] for i in op["keys"]], OTHER_NAME)
+                finally:
+                    self.chain_busy = False
         elif kind == "REMOVE":
             obs.result = self._remove(self.uris[op["key"]])
         elif kind == "PURGE":
